@@ -7,9 +7,13 @@ multi-molecule files with a DIFFERENT molecule in every block) every single stru
 generated (c10_text.enumerate_faults): truncation at every line boundary and at every byte offset of
 the last record, deletion / duplication of every line, deletion / garbling of every structural token,
 an extra token at either end of every fixed-grammar line, every count off by +-1, every record type
-indicator renamed.  Thorough tier: more bundled files and all pairs of faults on the small texts
-(the second fault is enumerated on the text damaged by the first; a first fault that already violates
-is not extended).
+indicator renamed; a stray non-keyword line in front of every line; token-ADDING damage that keeps every
+token well-formed (a stray number at every position of every fixed-grammar line, every numeric token
+doubled, every numeric token split in two at every interior position).  Base texts include molli-written
+files carrying TRIPOS records molli does not implement (COMMENT / SUBSTRUCTURE / SET before ATOM, between
+ATOM and BOND, after BOND).  Thorough tier: more bundled files (incl. isornitrate with its UNITY record) and
+all pairs of faults at different places of the small texts (a pair is judged only if neither member alone
+violates and neither member alone is a well-formed edit).
 
 Oracle (exactly the property text): the reader raises, or returns a list of molecules which
   (a) are, in order, molecules of the undamaged file (same name, atoms, coordinates, types, charges,
@@ -46,6 +50,7 @@ LEVEL = "fault_enumeration"
 FILES = Path(ml.files.ROOT)
 FILLS = ("?!", "!?", "~!")
 INFIXES = ("x", "q", "k")
+NUMS = ("7", "9", "8")  # stray numeric token (an integer that is not a mol2 bond type)
 
 
 # ---- termination guards ---------------------------------------------------------------------------
@@ -138,7 +143,7 @@ def _ev(v):
 
 
 def msnap(m):
-    """(atoms part, bonds part, name) of a returned molecule"""
+    """(atoms part, bonds part, name) of a returned molecule; -0.0 and 0.0 are the same value"""
     idx = {id(a): i for i, a in enumerate(m.atoms)}
     coords = np.asarray(m.coords, dtype=np.float64)
     atoms = tuple(
@@ -149,12 +154,12 @@ def msnap(m):
             _ev(a.geom),
             a.formal_charge,
             tuple(sorted((str(k), str(v)) for k, v in (a.attrib or {}).items())),
-            tuple(repr(float(x)) for x in coords[i]) if i < len(coords) else None,
+            tuple(repr(float(x) + 0.0) for x in coords[i]) if i < len(coords) else None,
         )
         for i, a in enumerate(m.atoms)
     )
     ch = getattr(m, "_atomic_charges", None)
-    charges = tuple(repr(x) for x in np.asarray(ch).tolist()) if ch is not None else None
+    charges = tuple(repr(x + 0.0) if isinstance(x, float) else repr(x) for x in np.asarray(ch).tolist()) if ch is not None else None
     bonds = tuple((idx.get(id(b.a1), -1), idx.get(id(b.a2), -1), _ev(b.btype), _ev(b.stereo)) for b in m.bonds)
     return ((atoms, charges, coords.shape), bonds, m.name)
 
@@ -165,6 +170,31 @@ def lone_atom():
     m.atoms[0].element = "He"
     m.coords[0] = [0.5, -0.25, 1.5]
     return m
+
+
+# TRIPOS records molli does not implement (it skips their data lines), placed at every position a
+# record can take inside a molecule
+OTHER_RECORDS = {
+    "before-ATOM": "@<TRIPOS>COMMENT\ngenerated for the C10 check\n",
+    "before-BOND": "@<TRIPOS>SUBSTRUCTURE\n     1 UNL1        1 TEMP              0 ****  ****    0 ROOT\n",
+    "after-BOND": "@<TRIPOS>SET\nSTATIC_SET STATIC ATOMS <user> **** a set of two atoms\n2 1 2\n",
+}
+SUBSTR_BASES = {
+    "gen_record_single.mol2": [("dmf.mol2", "before-BOND")],
+    "gen_record_multi.mol2": [("dummy.mol2", "before-ATOM"), ("dmf.mol2", "before-BOND"), ("propyne.mol2", "after-BOND"), ("dummy.mol2", None)],
+}
+
+
+def with_record(block, where):
+    """one molli-written mol2 block with an unimplemented record inserted"""
+    if where is None:
+        return block
+    rec = OTHER_RECORDS[where]
+    if where == "before-ATOM":
+        return block.replace("@<TRIPOS>ATOM\n", rec + "@<TRIPOS>ATOM\n", 1)
+    if where == "before-BOND":
+        return block.replace("@<TRIPOS>BOND\n", rec + "@<TRIPOS>BOND\n", 1)
+    return block + rec
 
 
 def base_text(name):
@@ -185,6 +215,8 @@ def base_text(name):
         mols = [lone_atom(), load("dummy.mol2"), third]
     elif name in ("gen_confs3.mol2", "gen_confs3.xyz"):
         mols = ml.Molecule.load_all_mol2(FILES / "pentane_confs.mol2")[:3]
+    elif name in SUBSTR_BASES:
+        return ("mol2", "".join(with_record(load(f).dumps_mol2(), where) for f, where in SUBSTR_BASES[name]))
     elif name == "gen_nocharge.mol2":
         # blocks that declare NO_CHARGES and carry no charge column (the bundled dummy.mol2 verbatim, then
         # two molli-written blocks edited to the same shape): the partial-charge array is then not a
@@ -217,6 +249,8 @@ QUICK_BASES = [
     "gen_mixed.mol2",
     "gen_mixed.xyz",
     "gen_nocharge.mol2",
+    "gen_record_single.mol2",
+    "gen_record_multi.mol2",
     "gen_confs3.mol2",
     "file:dendrobine.xyz",
     "file:dendrobine.mol2",
@@ -227,7 +261,7 @@ THOROUGH_SKIP = {"nanotube.mol2", "pdb_4a05.mol2", "zincdb_fda.mol2"}
 
 
 def thorough_bases(ctx):
-    out = list(QUICK_BASES) + ["file:pentane_confs.mol2", "gen_confs3.xyz", "gen_tiny3.mol2", "gen_tiny3.xyz"]
+    out = list(QUICK_BASES) + ["file:pentane_confs.mol2", "gen_confs3.xyz", "gen_tiny3.mol2", "gen_tiny3.xyz", "file:isornitrate.mol2"]
     for p in sorted(FILES.glob("*.mol2")):
         nm = "file:" + p.name
         if nm in out or p.name in THOROUGH_SKIP:
@@ -258,6 +292,13 @@ class Base:
         if r[0] != "ok" or not isinstance(r[1], list):
             raise HarnessError(f"the undamaged base text {name} is not readable: {r[:2]}")
         self.orig = [msnap(m) for m in r[1]]
+        if name in SUBSTR_BASES:
+            # the extra records must not change what is read
+            load = lambda f: ml.Molecule.load_mol2(FILES / f)  # noqa: E731
+            plain = "".join(load(f).dumps_mol2() for f, _ in SUBSTR_BASES[name])
+            rp = guarded_read("mol2", plain, len(plain.splitlines()))
+            if rp[0] != "ok" or [msnap(m) for m in rp[1]] != self.orig:
+                raise HarnessError(f"base text {name}: the unimplemented records change what molli reads from the undamaged text")
         if len(self.orig) != len(self.ref):
             raise HarnessError(f"base text {name}: molli reads {len(self.orig)} molecules, the reference reader {len(self.ref)}")
 
@@ -386,7 +427,7 @@ def repro(fmt, text):
 
 # ---- drivers -----------------------------------------------------------------------------------------
 def fills(ctx):
-    return FILLS[ctx.seed % len(FILLS)], INFIXES[ctx.seed % len(INFIXES)]
+    return FILLS[ctx.seed % len(FILLS)], INFIXES[ctx.seed % len(INFIXES)], True, NUMS[ctx.seed % len(NUMS)]
 
 
 def run_single(ctx, part):
@@ -395,9 +436,9 @@ def run_single(ctx, part):
     install_guards()
     name, ci, nc = part
     base = Base(name)
-    fill, infix = fills(ctx)
+    fargs = fills(ctx)
     n = 0
-    for f in T.enumerate_faults(base.doc, fill, infix):
+    for f in T.enumerate_faults(base.doc, *fargs):
         if n % nc == ci:
             if _hangs >= MAX_HANGS_PER_PARTITION:
                 ctx.cap_hit(f"{name}: partition abandoned after {_hangs} watchdog time-outs")
@@ -411,35 +452,60 @@ def run_single(ctx, part):
         ctx.add_note("single_faults_enumerated", n)
 
 
+def _pair_key(f):
+    """where a fault sits in the base text: (line position, position inside the line) or None when the
+    fault cannot be combined with another one on the same line"""
+    k = f["kind"]
+    if k == "insert-line":
+        return (f["line"] - 0.5, 0)
+    if k in ("truncate", "delete-line"):
+        return (f["line"], None)
+    if k == "duplicate-line":
+        return (f["line"], 10**6)
+    if k == "extra-token":
+        return (f["line"], 10**5 if f["where"] == "end" else -1)
+    if k == "insert-number":
+        return (f["line"], f["pos"] - 0.5)
+    return (f["line"], f["tok"])
+
+
 def run_pairs(ctx, part):
-    """every ordered pair (f1, f2) with f2 a single fault of the text damaged by f1, f2 at or after the
-    line of f1; first faults that already violate are not extended."""
+    """every unordered pair {fa, fb} of single faults of the BASE text at different places (fa before fb
+    in the text; fb is applied first so that the position of fa stays valid).  A pair is judged only
+    if neither member alone is a violation (no consequential noise) and neither member alone turns the
+    text into a well-formed file with other content (then the pair contains an edit that is not damage
+    and the reader may rightly return the other content); the combined text is classified once more."""
     install_guards()
     name, ci, nc = part
     base = Base(name)
-    fill, infix = fills(ctx)
-    n1 = 0
-    for f1 in T.enumerate_faults(base.doc, fill, infix):
-        mine = n1 % nc == ci
-        n1 += 1
-        if not mine:
+    fargs = fills(ctx)
+    singles = []
+    quiet = _Quiet(ctx)
+    for f in T.enumerate_faults(base.doc, *fargs):
+        d = T.apply_fault(base.doc, f)
+        cat = T.classify(base.fmt, T.doc_text(d), base.ref)
+        bad = False
+        if cat != "different":
+            bad, _ = judge(quiet, base, d, [f], record=False)
+        singles.append((f, _pair_key(f), cat, bad))
+    for ia, (fa, ka, cata, bada) in enumerate(singles):
+        if ia % nc != ci:
             continue
-        d1 = T.apply_fault(base.doc, f1)
-        quiet = _Quiet(ctx)
-        bad, _ = judge(quiet, base, d1, [f1], record=False)
-        if bad:
-            ctx.add_note("pair_prefixes_not_extended_(already_violating)")
+        if bada or cata == "different":
+            ctx.add_note("pair_members_not_combined_(violating_or_not_damage)")
             continue
-        for f2 in T.enumerate_faults(d1, fill, infix):
-            if f2["line"] < min(f1["line"], len(d1)) and f2["kind"] != "truncate":
+        if fa["kind"] == "truncate":
+            continue  # everything behind a cut is gone: the pair is the cut itself
+        for fb, kb, catb, badb in singles:
+            if badb or catb == "different":
                 continue
-            if f2["kind"] == "truncate" and f1["kind"] == "truncate":
-                continue  # two truncations are one truncation
+            if kb[0] < ka[0] or (kb[0] == ka[0] and (ka[1] is None or kb[1] is None or kb[1] <= ka[1])):
+                continue
             if _hangs >= MAX_HANGS_PER_PARTITION:
                 ctx.cap_hit(f"{name}: pair partition abandoned after {_hangs} watchdog time-outs")
                 return
-            d2 = T.apply_fault(d1, f2)
-            judge(ctx, base, d2, [f1, f2])
+            d2 = T.apply_fault(T.apply_fault(base.doc, fb), fa)
+            judge(ctx, base, d2, [fb, fa])
             ctx.add_note("fault_pairs")
 
 
@@ -476,7 +542,8 @@ def run(ctx):
     ctx.rule = (
         "every single structural fault of every base text (truncation at every line boundary and at every byte offset of the last "
         "molecule block; deletion and duplication of every line; deletion of every token of every fixed-grammar line; two garblings of every "
-        "structural token; an extra token at either end of every fixed-grammar / section line; every count +-1; every section keyword renamed), "
+        "structural token; an extra token at either end of every fixed-grammar / section line; every count +-1; every section keyword renamed; a stray line before every line; "
+        "a stray number at every token position, every numeric token doubled / split at every interior position), "
         "thorough tier additionally every pair of faults on the small texts; each damaged text is read by Molecule.loads_all_mol2 / loads_all_xyz "
         "under a step budget and a CPU watchdog; a case is non-trivial when the harness's strict reference reader finds the damaged text NOT to be a "
         "well-formed file (distinct damaged texts are counted)"
@@ -486,6 +553,8 @@ def run(ctx):
         "a damaged text that the harness's strict reference reader accepts as a well-formed file with other content is not damage (checked for termination only) - except byte-offset truncation, which the property text quantifies over explicitly and which is judged and reported under the signature '<fmt>|truncate|inside-last-value:well-formed-shorter-value-accepted'",
         "'same content' = name, per-atom element / label / type / geometry / formal charge / attributes / coordinates (exact), partial charges, bonds (endpoints, type); 'corresponding molecule' = order-preserving match into the molecules molli reads from the undamaged text (a reader that drops a damaged block and returns the complete others passes)",
         "'its own header' = some block header of the damaged text, matched in order (lenient scan: counts line after @<TRIPOS>MOLECULE / single-integer lines of an xyz text)",
+        "the strict reference reader accepts whatever a reader may rightly take for a well-formed record: bond orders 4-6 (molli's documented extension), surplus trailing tokens of mol2 count/atom/bond lines (status bits), unvalidated substructure id/name columns; xyz atom lines have exactly four tokens; -0.0 equals 0.0",
+        "a pair of faults is judged only if neither member alone makes the text a well-formed file with other content (such a member is an edit, not damage) and the combined text is not one either",
         "count-1 is not generated for a declared count of 0 (a negative count is not 'off by one'); an inserted extra token is always a non-number, non-keyword",
         "termination: at most 4*lines+64 LineReader steps and %.0f s of CPU per damaged text" % CPU_LIMIT_S,
         "bundled files with sections other than MOLECULE/ATOM/BOND and the two large files (nanotube, pdb_4a05) are not used as base texts",
